@@ -115,6 +115,20 @@ def families():
             ds.append(d)
         return dict(time_units="generations", demes=ds)
 
+    def merger(n):
+        # one deme with n - 1 ancestors (a many-way admixture), every ancestor living on
+        k = max(n - 1, 1)
+        ds = [dict(name="d%d" % i, epochs=[dict(start_size=100 + i)]) for i in range(k)]
+        ds.append(dict(name="m", ancestors=["d%d" % i for i in range(k)], proportions=[1.0 / k] * k, start_time=50,
+                       epochs=[dict(start_size=500)]))
+        return dict(time_units="generations", demes=ds)
+
+    def multi_source_pulse(n):
+        # one pulse with n - 1 sources
+        k = max(n - 1, 1)
+        return dict(time_units="generations", demes=demes_n(k + 1),
+                    pulses=[dict(sources=["d%d" % i for i in range(k)], dest="d%d" % k, time=10, proportions=[0.5 / k] * k)])
+
     def pulse_chain(n):
         # pulses d0 -> d1 -> d2 -> ... all at one time
         return dict(time_units="generations", demes=demes_n(n),
@@ -160,7 +174,7 @@ def families():
         return dict(time_units="generations", demes=demes_n(n), migrations=ms)
 
     return {"continent-islands": continent_islands, "continent-islands-both": lambda n: continent_islands(n, True), "two-cliques-bridge": two_cliques,
-            "pulse-chain-same-time": pulse_chain, "pulse-fan-same-time": pulse_fan, "star-two-periods": star_two_periods, "clique-two-periods": clique_two_periods, "ladder": ladder, "dense-ancestry": dense_ancestry, "islands": islands, "ring": ring, "ring-distinct": lambda n: ring(n, True), "path": path, "star": star,
+            "pulse-chain-same-time": pulse_chain, "pulse-fan-same-time": pulse_fan, "star-two-periods": star_two_periods, "clique-two-periods": clique_two_periods, "ladder": ladder, "dense-ancestry": dense_ancestry, "merger": merger, "multi-source-pulse": multi_source_pulse, "islands": islands, "ring": ring, "ring-distinct": lambda n: ring(n, True), "path": path, "star": star,
             "chain": chain, "epochs": epochs, "pulses": pulses, "holes": holes, "tree": tree}
 
 
